@@ -28,8 +28,11 @@ static Verdict run_c11(const Case &c)
   std::vector<bytes> files;
   std::vector<std::string> labels;
   bytes base;
+  bytes warm; // an authentic file that goes through the same process first (whatever it leaves behind must not help the next input)
   if (kind == "file")
   {
+    if (c.has("warm"))
+      warm = c.getb("warm");
     files.push_back(c.getb("file"));
     labels.push_back("explicit file");
   }
@@ -97,9 +100,25 @@ static Verdict run_c11(const Case &c)
       labels.push_back("edits " + c.get("edits"));
     }
   }
+  if (kind != "file" && kind != "raw" && c.geti("warmfirst") && c.get("keykind", "right") == "right")
+    warm = base;
+  if (!warm.empty())
+  {
+    files.insert(files.begin(), warm);
+    labels.insert(labels.begin(), "the authentic file itself");
+    v.classes.push_back("authentic_file_first_in_the_same_process");
+  }
   v.classes.push_back("kind=" + kind);
   v.weight = files.size();
   std::vector<DV> res = batch_dv(files, {key}, T, chunk, (int)c.geti("refill", 0));
+  if (!warm.empty() && files.size() > 1 && res[0].evaluated && res[0].st != CH_OK)
+  {
+    // the authentic file did not get through normally (another property's subject): judge the rest without it
+    files.erase(files.begin());
+    labels.erase(labels.begin());
+    warm.clear();
+    res = batch_dv(files, {key}, T, chunk, (int)c.geti("refill", 0));
+  }
   size_t passing_magic = 0;
   for (size_t i = 0; i < files.size(); i++)
   {
@@ -131,6 +150,8 @@ static Verdict run_c11(const Case &c)
       Case rc;
       rc.set("kind", "file");
       rc.setb("file", f);
+      if (!warm.empty() && i > 0)
+        rc.setb("warm", warm);
       rc.setb("key", key);
       rc.seti("T", T);
       rc.seti("chunk", chunk);
@@ -216,6 +237,7 @@ static Case gen_c11()
   }
   gen_base(c);
   c.seti("toolbase", g::coin(50) ? 1 : 0);
+  c.seti("warmfirst", g::coin(50) ? 1 : 0);
   c.set("keykind", g::coin(80) ? "right" : "wrong");
   if (c.get("keykind") == "wrong")
     c.setb("key", g::raw(16));
